@@ -2,10 +2,11 @@ package rate
 
 import (
 	"fmt"
-	"regexp"
 	"strconv"
 	"strings"
 	"time"
+	"unicode"
+	"unicode/utf8"
 )
 
 func ParseRate(rateArg string) (int, time.Duration, error) {
@@ -22,12 +23,19 @@ func ParseRate(rateArg string) (int, time.Duration, error) {
 			return rate, unit, fmt.Errorf("rate %s can't be negative", rateArg)
 		}
 		unitArg := (rateArg)[strings.Index(rateArg, "/")+1:]
-		if !isNumeric(unitArg[0:1]) {
+		if unitArg == "" {
+			return rate, unit, fmt.Errorf("unable to parse rate %s: missing unit", rateArg)
+		}
+		// a bare unit ("10/s") means one of it
+		if startsWithLetter(unitArg) {
 			unitArg = "1" + unitArg
 		}
 		unit, err = time.ParseDuration(unitArg)
 		if err != nil {
 			return rate, unit, fmt.Errorf("unable to parse unit %s: %w", rateArg, err)
+		}
+		if unit <= 0 {
+			return rate, unit, fmt.Errorf("rate %s must be per a positive duration", rateArg)
 		}
 	} else {
 		var err error
@@ -44,7 +52,7 @@ func ParseRate(rateArg string) (int, time.Duration, error) {
 	return rate, unit, nil
 }
 
-func isNumeric(value string) bool {
-	re := regexp.MustCompile("^[0-9]+$")
-	return re.MatchString(value)
+func startsWithLetter(value string) bool {
+	first, _ := utf8.DecodeRuneInString(value)
+	return unicode.IsLetter(first)
 }
